@@ -139,6 +139,9 @@ class RuleRenderer:
             return "_"
         if k == "lit":
             return lit(p["v"])
+        if k == "at":
+            env.d[p["n"]] = (kind, ty)
+            return f"{p['n']} @ {self.pat(p['q'], env, kind)}"
         if k == "some":
             return f"Some({self.pat(p['q'], env, kind)})"
         if k == "none":
